@@ -129,3 +129,39 @@ fn formats_agree() {
     }
     println!("formats: checked {} documents, {} with discrepancies", seeds, bad);
 }
+
+#[test]
+fn exports_reimport_to_the_same_dataset() {
+    let seeds: u64 = std::env::var("PROBE_SEEDS").ok().and_then(|v| v.parse().ok()).unwrap_or(60);
+    let mut bad = 0;
+    for seed in 1..=seeds {
+        let mut r = Rng(seed.wrapping_mul(0xD6E8FEB86659FD93) | 1);
+        let n = [4usize, 12, 40][r.below(3)];
+        let ts = gen(&mut r, n, true);
+        let mut doc = to_nt(&ts);
+        // some quoted-triple terms as well
+        for i in 0..r.below(3) { doc.push_str(&format!("<< <http://e/s{}> <http://e/p0> \"q {}\" >> <http://e/said> <http://e/o{}> .\n", i, i, i)); }
+        let mut base = SparqlDatabase::new();
+        base.parse_ntriples_and_add(&doc);
+        let want = triples(&base);
+        let mut problems = Vec::new();
+        let exports: Vec<(&str, String, fn(&mut SparqlDatabase, &str))> = vec![
+            ("ntriples", base.generate_ntriples(), |d, s| d.parse_ntriples_and_add(s)),
+            ("nquads", base.generate_nquads(), |d, s| d.parse_nquads_and_add(s)),
+            ("turtle", base.generate_turtle(), |d, s| d.parse_turtle(s)),
+        ];
+        for (name, text, load) in &exports {
+            let res = std::panic::catch_unwind(std::panic::AssertUnwindSafe(|| { let mut d = SparqlDatabase::new(); load(&mut d, text); triples(&d) }));
+            match res {
+                Err(_) => problems.push(format!("{} PANIC", name)),
+                Ok(got) => if got != want {
+                    let missing: Vec<_> = want.iter().filter(|t| !got.contains(t)).take(2).collect();
+                    let extra: Vec<_> = got.iter().filter(|t| !want.contains(t)).take(2).collect();
+                    problems.push(format!("{}: {} vs {} triples; missing {:?} extra {:?}", name, got.len(), want.len(), missing, extra));
+                }
+            }
+        }
+        if !problems.is_empty() { bad += 1; println!("seed {} n {}\n  {}", seed, ts.len(), problems.join("\n  ")); }
+    }
+    println!("roundtrip: checked {} datasets, {} with discrepancies", seeds, bad);
+}
